@@ -87,6 +87,7 @@ type c04Gen struct {
 	r    *rand.Rand
 	nv   int
 	wctr int
+	cctr int
 }
 
 func (g *c04Gen) v() string {
@@ -112,7 +113,7 @@ func (g *c04Gen) ball() string {
 	case 4:
 		return "g(1)"
 	case 5:
-		return "error(type_error(atom, 1), ctx)"
+		return "error(type_error(atom, 1), _)"
 	default:
 		return "b3"
 	}
@@ -137,7 +138,10 @@ func (g *c04Gen) catcher() string {
 	case 7:
 		return "g(" + g.v() + ")"
 	default:
-		return g.v()
+		// a catcher that takes the whole ball gets a variable of its own: a variable holding a complete
+		// error term (with its implementation-defined Context) must not take part in later unifications
+		g.cctr++
+		return fmt.Sprintf("B%d", g.cctr)
 	}
 }
 
